@@ -27,7 +27,7 @@ ASSUMPTIONS = [
 ]
 BOUNDS = {"quick": "<= 3 samples, max_data_age_in_periods in {1, 1.5, 2}, initial_buffer_len in {1, 2, 3}, two ticks",
           "thorough": "4 samples, ages {1, 1.5, 2, 3}, buffers {1, 2, 3, 4}"}
-OUTSIDE = "longer histories; periods other than 1 s; max_buffer_len/warn_buffer_len clamps"
+OUTSIDE = "longer histories; periods other than 1 s and 2 s (symbolic instances) and the concrete periods of the ieee-* instances; max_buffer_len/warn_buffer_len clamps"
 BUDGET = {"quick": 600, "thorough": 1500}
 KF_ZERO = "C08-input-period-rounds-to-zero"
 
@@ -137,6 +137,45 @@ def make(m, age, buflen, period_s=1, grid=None, reach=False, burst=None):
     return fn
 
 
+def make_ieee(period_us, age, nT):
+    """Concrete present-day timeline (IEEE float arithmetic of the real code, which the real-arithmetic encoding of the other
+    instances abstracts): tick T = 2024-05-17T13:07:11.300Z + kT * period for each of nT values of kT; one sample stamped on the lower
+    window edge T - age*period shifted by -1/0/+1 us and one stamped on the upper edge T shifted by -1/0/+1 us.  Oracle in exact
+    integer microseconds: (T - age*period, T]."""
+    from datetime import datetime, timezone
+    fr = Fraction(age)
+    PER = timedelta(microseconds=period_us)
+    BASE = datetime(2024, 5, 17, 13, 7, 11, 300000, tzinfo=timezone.utc)
+    us = timedelta(microseconds=1)
+
+    def fn(ex):
+        rec = []
+
+        def recorder(samples, cfg, props):
+            rec.append([s for s in samples])
+            return 42.0
+        cfg = rs.ResamplerConfig(resampling_period=PER, max_data_age_in_periods=age, resampling_function=recorder, initial_buffer_len=8)
+        kT = ex.choice("kT", nT)
+        d_lo = ex.choice("d_lo", 3) - 1
+        d_hi = ex.choice("d_hi", 3) - 1
+        T = BASE + kT * PER
+        num = period_us * fr.numerator
+        q, r = divmod(num, fr.denominator)
+        width = q + (1 if (2 * r > fr.denominator or (2 * r == fr.denominator and q % 2)) else 0)   # timedelta * float rounds half to even
+        t_lo = T - width * us + d_lo * us
+        t_hi = T + d_hi * us
+        helper = rs._ResamplingHelper("x", cfg)
+        helper.add_sample(Sample(t_lo, Quantity(1.0)))   # buffer (8) never full: the input period is not estimated, the window is age * period
+        helper.add_sample(Sample(t_hi, Quantity(2.0)))
+        out = helper.resample(T)
+        exp = ([1.0] if d_lo > 0 else []) + ([2.0] if d_hi <= 0 else [])
+        got = [s.value.base_value for s in rec[0]] if rec else []
+        ex.observe("tick", str(T))
+        ex.check(got == exp, f"function received samples {got}, expected {exp} (lower edge shift {d_lo} us, upper edge shift {d_hi} us)")
+        ex.check(out.timestamp == T, "emitted sample not stamped with the tick time")
+    return fn
+
+
 def instances(tier):
     I = Instance
     out = [I("reach:m2", "make", (2, 1.0, 2, 1, None, True), "reachability twin", budget_s=100, validate_every=0)]
@@ -154,6 +193,11 @@ def instances(tier):
     out.append(I("burst-m2-buf2", "make", (2, 1.0, 2, 1, None, False, 3), "2 samples within 3 us of the first tick, buffer 2 (period estimate from a burst)",
                  budget_s=200, validate_every=50, timeout_ms=30000))
     out.append(I("burst-m3-buf3", "make", (3, 1.0, 3, 1, None, False, 2), "3 samples within 2 us of the first tick, buffer 3", budget_s=300, validate_every=50, timeout_ms=30000))
+    for pus, a in ([(100_000, 1.5), (300_000, 1.0), (1_500_000, 3.0)] if tier == "quick" else
+                   [(100_000, 1.5), (300_000, 1.0), (1_500_000, 3.0), (100_000, 3.0), (700_000, 2.0), (70_000, 1.5), (1_100_000, 1.0), (200_000, 2.5)]):
+        out.append(I(f"ieee-per{pus}us-age{a}", "make_ieee", (pus, a, 40 if tier == "quick" else 400),
+                     f"concrete present-day timeline, period {pus} us, max_data_age_in_periods={a}: samples on both window edges +-1 us (IEEE arithmetic of the real code)",
+                     budget_s=100, validate_every=0))
     for m, a, b, ps, g in cfgs:
         out.append(I(f"m{m}-age{a}-buf{b}-per{ps}" + (f"-grid{g}" if g else ""), "make", (m, a, b, ps, g),
                      f"{m} samples, max_data_age_in_periods={a}, initial_buffer_len={b}, period {ps} s"
